@@ -6,5 +6,7 @@ package main
 // the tree under test has no hook H2b: write faults are not generated
 const faultHook = false
 
+var faultFired bool
+
 func armFault(j int) {}
 func disarmFault()   {}
